@@ -5,7 +5,7 @@ import ast
 from fractions import Fraction
 
 from ..absint import ClassRef, FuncV, Interp, ObjV, VecV
-from ..forms import Const, DictV, Form, SliceV, TupleV, atom_children, vkey
+from ..forms import Const, DictV, Form, SliceV, TupleV, atom_children, mk_fn, vkey
 from ..rules import S, check_late_binding
 from ..srcmodel import src_of
 
@@ -400,6 +400,91 @@ def _head(v):
     return a
 
 
+_SAME_LEN_FNS = {"roll", "real", "imag", "abs", "conj", "astype", "copy", "array", "asarray", "flip", "neg", "sort", "numpy.roll", "numpy.real"}
+
+
+def _noise_only(at):
+    names = {x[1] for x in Form.atom(at).atoms() if x[0] in ("sym", "phi") and isinstance(x[1], str)}
+    names = {n for n in names if "signal" in n or "noise" in n}
+    return bool(names) and all("noise" in n for n in names)
+
+
+def _flen(v):
+    """symbolic sample count of an array-valued form (None if not determined).  A stop bound of a slice is taken as the length
+    (the code under analysis builds it as a min with the available length)."""
+    if not isinstance(v, Form):
+        return None
+    a = v.single_atom()
+    if a is None:
+        lens = []
+        for mono in v.terms:
+            for at, _e in mono:
+                if _noise_only(at):
+                    continue          # signal and noise of one object have the same length (constructor invariant, C01.4)
+                l = _flen(Form.atom(at))
+                if l is not None:
+                    lens.append(l)
+        if lens and all(l == lens[0] for l in lens):
+            return lens[0]
+        return None
+    k = a[0]
+    if k == "sym":
+        return mk_fn("siglen", [v]) if a[1] in ("input.signal", "input.noise") else None
+    if k == "phi":
+        alts = [x for x in a[2] if not (isinstance(x, Const) and x.v is None)]
+        ls = [_flen(x) for x in alts]
+        if ls and all(l is not None and l == ls[0] for l in ls):
+            return ls[0]
+        if "signal" in a[1] or "noise" in a[1]:
+            return mk_fn("siglen", [v])
+        return None
+    if k == "fn":
+        nm = a[1].split(".")[-1]
+        if nm == "resample" and len(a[2]) >= 2:
+            return a[2][1] if isinstance(a[2][1], Form) else None
+        if nm == "ifexp" and len(a[2]) == 3:
+            l1, l2 = _flen(a[2][1]), _flen(a[2][2])
+            return l1 if l1 is not None and l1 == l2 else None
+        if (nm in _SAME_LEN_FNS or a[1] in _SAME_LEN_FNS) and a[2]:
+            return _flen(a[2][0])
+        return None
+    if k == "idx" and isinstance(a[2], SliceV):
+        sl = a[2]
+        none = lambda x: isinstance(x, Const) and x.v is None
+        if not none(sl.step):
+            return None
+        base = _flen(a[1])
+        if none(sl.lo) and none(sl.hi):
+            return base
+        if none(sl.lo) and isinstance(sl.hi, Form):
+            neg = sl.hi.terms and all(c[0] < 0 and c[1] == 0 for c in sl.hi.terms.values())
+            if neg:
+                return None if base is None else base + sl.hi
+            return sl.hi
+        if none(sl.hi) and isinstance(sl.lo, Form) and base is not None:
+            return base - sl.lo
+    return None
+
+
+def _slots_of_axis(t):
+    """NL for a time axis built as kron(ones(NL//2), <two-slot ramp>) or tile(<ramp>, NL//2)"""
+    a = t.single_atom() if isinstance(t, Form) else None
+    if a is None or a[0] != "fn":
+        return None
+    k = None
+    nm = a[1].split(".")[-1]
+    if nm == "kron" and len(a[2]) == 2:
+        o = a[2][0].single_atom() if isinstance(a[2][0], Form) else None
+        if o is not None and o[0] == "fn" and o[1].split(".")[-1] == "ones" and o[2]:
+            k = o[2][0]
+    elif nm == "tile" and len(a[2]) == 2:
+        k = a[2][1]
+    ka = k.single_atom() if isinstance(k, Form) else None
+    if ka is not None and ka[0] == "fn" and ka[1] == "floordiv" and len(ka[2]) == 2 and isinstance(ka[2][1], Form) and ka[2][1].rational() == 2:
+        return ka[2][0]
+    return None
+
+
 def _rank_split(data):
     """repr of the cut if `data` is sort(X)[p:q] / X[argsort(X)[p:q]] with p, q independent of the sample values, else None"""
     a = _head(data)
@@ -486,6 +571,29 @@ def run(ctx):
                     bad_start.append(lo)
                 ctx.check("C17.3", not bad_start, fi, rets[0].node, f"GET_EYE [{case}]: record trimmed at its end / by whole slots only ({len(starts)} start offsets)", "sample 0 stays a slot boundary",
                           f"the waveform is cut from sample {bad_start[0]!r} on, which is not a whole number of slots: the folded eye is shifted by a fraction of a slot against the time axis (crossings and sampling instant misplaced for records that are not a whole number of eye periods)"[:600] if bad_start else "")
+            # C17.5 the folded record holds exactly the slots the time axis is built for: resampling maps flen(x) samples at sps per
+            # slot onto `num` samples at sps_resamp per slot, so num*sps == flen(x)*sps_resamp (otherwise the time axis is
+            # compressed: slot boundaries drift through the eye); without resampling the record has sps samples for each slot of t
+            if isinstance(ywave, Form):
+                ya = ywave.single_atom()
+                S_ = S("gv.sps")
+                if ya is not None and ya[0] == "fn" and ya[1].split(".")[-1] == "resample" and len(ya[2]) >= 2:
+                    lx, num = _flen(ya[2][0]), ya[2][1]
+                    spr = S("sps_resamp")
+                    if lx is None or not isinstance(num, Form):
+                        ctx.unknown("C17.5", fi, rets[0].node, f"GET_EYE [{case}]: resampled record", "sample count of the record handed to resample not determined")
+                    else:
+                        ctx.check("C17.5", num * S_ == lx * spr, fi, rets[0].node, f"GET_EYE [{case}]: resample keeps the slot rate (num*sps == len*sps_resamp)", "the record is cut to the slots the time axis covers",
+                                  f"resample maps {short(lx, 90)} samples (sps per slot) onto {short(num, 90)} samples (sps_resamp per slot): for a record longer than the slot cap the time axis is compressed, "
+                                  "slot boundaries drift through the eye window and levels, sigmas and crossings are smeared")
+                else:
+                    ly = _flen(ywave)
+                    NL = _slots_of_axis(eye.fields.get("t"))
+                    if ly is None or NL is None:
+                        ctx.unknown("C17.5", fi, rets[0].node, f"GET_EYE [{case}]: record vs time axis", "sample count of the record or slot count of the axis not determined")
+                    else:
+                        ctx.check("C17.5", ly == NL * S_, fi, rets[0].node, f"GET_EYE [{case}]: record has sps samples per slot of the time axis", "len(y) == nslots*sps",
+                                  f"the record holds {short(ly, 90)} samples but the time axis is built for {short(NL, 90)} slots of sps samples")
             # C17.4 the two level populations are separated by VALUE (a level-typed threshold between the clusters), never by RANK:
             # a cut of the sorted samples at a position computed from the record length alone assumes a fixed proportion of ones
             # and zeros, and the statement quantifies over every bit pattern with both symbols present
@@ -532,3 +640,4 @@ def run(ctx):
     ctx.require_min("C17.1", 40)
     ctx.require_min("C17.3", 4)
     ctx.require_min("C17.4", 8)
+    ctx.require_min("C17.5", 4)
